@@ -417,7 +417,11 @@ func c31Run(e *c31Env, st *State, res *Result) string {
 				}
 				groups = append(groups, g)
 				if len(m)+c31RelayHeader > p2p.TransportMessageMaxSize {
-					res.PropKey = "C31:batch-accounts-unsigned-size"
+					res.PropKey = "C31:bundle-exceeds-transport-max"
+					if c.sumPayload < thr {
+						// the batcher's own budget was respected in unsigned bytes only
+						res.PropKey = "C31:batch-accounts-unsigned-size"
+					}
 					res.PropDesc = fmt.Sprintf("bundle of %d transactions built by the batcher is %d bytes (+%d relay header) > TransportMessageMaxSize %d; payload sum %d, envelope sum %d",
 						len(g.idx), len(m), c31RelayHeader, p2p.TransportMessageMaxSize, c.sumPayload, c.sumEnv)
 					_, relayPanics, _ := Catch(func() string { e.peer.VerifC31BuildRelayMessage(e.funder, m); return "" })
